@@ -3,7 +3,7 @@
              (1 case table impl_obs) is the ordinary evaluation. *)
 From Coq Require Import String.
 From Coq Require Import List NArith ZArith Bool Arith.
-From VF Require Import Base.Sx FileH.Str FileH.Unquote FileH.Handler FileH.Spec FileH.Codec.
+From VF Require Import Base.Sx FileH.Str FileH.Unquote FileH.PosixPath FileH.Handler FileH.Spec FileH.Codec.
 Import ListNotations.
 Open Scope N_scope.
 
@@ -131,6 +131,16 @@ Definition holds (k : case) (o : obs) : list string :=
        else if (o_class o =? 4) then [] else ["not_handled"%string])
   end.
 
+(* the hypotheses of C04_holds as a boolean (C04.Props.C04_validb_valid); every part is decidable from the case:
+   current variant, lookup_no_result_action = continue, directory mode => the root is absolute, has no trailing
+   slash and is normalised, and the oracle table answers for the path the model names *)
+Definition root_okb (root : str) : bool :=
+  starts_with [SL] root && negb (ends_with [SL] root) && eqb_str (normpath root) root.
+Definition validb (k : case) : bool :=
+  negb (k_old232 k) && c_continue (k_cfg k) &&
+  (c_filemode (k_cfg k) || root_okb (c_target (k_cfg k))) &&
+  forallb (fun p => match table_lookup (k_table k) p with Some _ => true | None => false end) (wanted k).
+
 (* ---- sx ---- *)
 Definition sxObs (o : obs) : sx :=
   L [sxBool (o_init o); sxBool (o_matches o); L (map sxStr (o_opened o)); sxN (o_class o); sxStr (o_body o)].
@@ -163,7 +173,7 @@ Definition entry (x : sx) : sx :=
       match decode_case tf o2 ca cfg uri tbl, asObs io with
       | Some k, Some io =>
           let m := run_model k in
-          L [ sxObs m; L (map sxS (holds k m)); L (map sxS (holds k io)) ]
+          L [ sxObs m; L (map sxS (holds k m)); L (map sxS (holds k io)); L []; sxBool (validb k) ]
       | _, _ => sxS "bad-case"
       end
   | _ => sxS "bad-case"
